@@ -62,7 +62,8 @@ CmdFailing(ev) ==
 RegionFailing(ev) ==
     IF ev.err >= 9 \/ ev.npoly # 1 THEN {<<0, "region", "no_outline">>}
     ELSE LET miss == {n \in DOMAIN ev.samples : ev.samples[n][3] = 1 /\ ev.samples[n][2] < -KClear /\ ev.samples[n][1] = 0}
-             extra == {n \in DOMAIN ev.samples : ev.samples[n][2] > KClear /\ ev.samples[n][1] = 1}
+             \* (third entry 2: within the mitre's reach of a corner of a polyline path - no claim)
+             extra == {n \in DOMAIN ev.samples : ev.samples[n][2] > KClear /\ ev.samples[n][1] = 1 /\ ev.samples[n][3] # 2}
          IN  (IF miss = {} THEN {} ELSE {<<Cardinality(miss), "region", "point_within_half_width_not_covered">>})
              \cup (IF extra = {} THEN {} ELSE {<<Cardinality(extra), "region", "point_beyond_half_width_covered">>})
              \cup (IF Len(ev.samples) > 20 THEN {} ELSE {<<0, "region", "too_few_samples">>})
